@@ -292,6 +292,9 @@ def run(ctx):
     ctx.rule("R2.sanitiser", "clamp_p_value: !is_finite -> constant 1.0; else f64::clamp(p, 1e-15, 1.0)", floor=2)
     ctx.rule("R3.switch-over-agreement", "exact_mw_feasible receives the two complementary side sizes at every call site", floor=3, shape_dependent=True)
 
+    ctx.rule("R4.memo-independent-of-call-arguments", "a lazily filled cache (Option::get_or_insert_with / OnceCell::get_or_init on a field of self) is computed from self's state only, never from the arguments of the call that happens to fill it", floor=1)
+    memo_rule(ctx, prog)
+
     R = Ranges(prog)
     ctx.extra["unknown_calls_in_range_analysis"] = sorted(set(R.unknown))[:20]
     for adt, fs in P_FIELDS.items():
@@ -384,3 +387,41 @@ def _root(b, op):
         else:
             break
     return l
+
+
+
+def memo_rule(ctx, prog):
+    from ..analysis import closure_capture_ops
+    n = 0
+    for b in prog.bodies:
+        if b.is_closure or "::tests::" in b.key:
+            continue
+        for bb, t in b.calls():
+            m = t["callee"].get("method")
+            k = callee_key(t["callee"])
+            if m not in ("get_or_insert_with", "get_or_init", "get_or_try_init", "get_or_insert") or not t["args"]:
+                continue
+            if "Entry" in k or "hash_map" in k or "btree_map" in k:
+                continue   # keyed by an argument on purpose
+            root, fields = op_access_path(b, t["args"][0])
+            if root != 1 or not fields:
+                continue   # not a cache stored in self
+            n += 1
+            ctx.fn(b)
+            deps = set()
+            for a in t["args"][1:]:
+                sl = Slice(b).run(a)
+                deps |= sl["args"]
+                l = op_local(a)
+                if l is not None:
+                    for ck in b.local_ty(l).get("closures", []):
+                        for cb in prog.closures_of(b):
+                            if cb.key == strip_generics(ck) or strip_generics(ck).startswith(cb.key):
+                                for _bb, cops in closure_capture_ops(b, cb.key):
+                                    for o in cops:
+                                        deps |= Slice(b).run(o)["args"]
+            bad = sorted(d for d in deps if d != 1)
+            ctx.ob("R4.memo-independent-of-call-arguments", f"{b.key.split('::', 1)[1]}|{fields[-1].split('::')[-1]}", not bad, b.loc(t["span"]),
+                   f"cache initialiser depends on self only: {not bad}" + (f"; also on parameter(s) {[b.local_name(d) or d for d in bad]}" if bad else ""))
+    if n == 0:
+        ctx.missing("R4.memo-independent-of-call-arguments", "lazily filled caches in cbh_stats")
